@@ -327,3 +327,8 @@ Example C07_recovery_master_witness :
       [Some PsDataExchange; Some PsDataExchange] /\
     map sl_st sl = [SlDataExch; SlDataExch] /\ map sl_gc sl = [Some 0; Some 0].
 Proof. exact bridge_example. Qed.
+
+(* the recovery monitor the driver runs (reset_address wrapper) is c07_monitor on transcripts without reset_address *)
+Theorem C07_oracle_ra_agrees : forall c l, has_reset l = false -> c07_monitor_ra c l = c07_monitor c l.
+Proof. exact c07_ra_agrees. Qed.
+Print Assumptions C07_oracle_ra_agrees.
